@@ -501,12 +501,92 @@ def r4_boolean_tables(ctx):
         ctx.check(got == (t, fl), CF + f, q, "boolean literal table (true, false)", detail=list(got), expected=[t, fl])
 
 
+def _missing_is_none(ctx):
+    """A missing value is the object None.  0, 0.0, False and '' are values and are written out as such: a test that
+    looks at the scalar alone must not put one of them into the class of None while separating it from a non-zero /
+    non-empty value of the same type (what `not value` does)."""
+    from .common import concrete_truth
+    n = 0
+    pairs = ((0, 1), (0.0, 1.5), (False, True), ("", "a"))
+    for mod in ctx.repo.all_modules(CF.rstrip("/")):
+        for cname, cdef in mod.classes.items():
+            for mname, fn in methods(cdef).items():
+                if not (mname.startswith("_parse_scalar") or mname in ("parse_define",)):
+                    continue
+                names = [a.arg for a in fn.args.args[1:]]
+                for t in ast.walk(fn):
+                    test = t.test if isinstance(t, ast.If) else None      # `x if value else y` renders a boolean, it does not look for a missing value
+                    anc, boolean_branch = getattr(t, "_parent", None), False
+                    while test is not None and anc is not None and anc is not fn:
+                        if isinstance(anc, ast.If) and "ool" in norm(anc.test) and t not in anc.orelse:
+                            boolean_branch = True
+                        anc = getattr(anc, "_parent", None)
+                    if test is None or boolean_branch:
+                        continue
+                    for v in names + [f"{x}.value" for x in names]:
+                        if v not in norm(test):
+                            continue
+                        tn = concrete_truth(test, {v: None})
+                        if tn is None:
+                            continue
+                        n += 1
+                        what = "a missing value is recognised as None, never by falsity (0, False and '' are values)"
+                        bad = {}
+                        for z, nz in pairs:
+                            tz, tnz = concrete_truth(test, {v: z}), concrete_truth(test, {v: nz})
+                            if tz is not None and tnz is not None and tz == tn and tz != tnz:
+                                bad[repr(z)] = f"treated like None, {nz!r} is not"
+                        if bad:
+                            ctx.violated(mod.relpath, f"{cname}.{mname}", what, detail={norm(test): bad}, expected=f"{v} is None")
+                        else:
+                            ctx.holds(mod.relpath, f"{cname}.{mname}", what, detail=norm(test))
+    ctx.floor("None tests of exported scalars", n, 2)
+
+
+def _options_forwarded(ctx):
+    """Every exporter takes the selection (query, tags) and the data format as keyword options of the base class.  An
+    exporter whose constructor accepts **kwargs hands all of them to the base constructor; naming single options in
+    the call drops the others, and with them the selection."""
+    n = 0
+    for mod in ctx.repo.all_modules(CF.rstrip("/")):
+        for cname, cdef in mod.classes.items():
+            init = methods(cdef).get("__init__")
+            if init is None or init.args.kwarg is None or not ctx.repo.is_subclass(mod, cdef, "ExportConfig") or cname == "ExportConfig":
+                continue
+            kw = init.args.kwarg.arg
+            sup = [c for c in ast.walk(init) if isinstance(c, ast.Call) and norm(c.func) in ("super().__init__", "ExportConfig.__init__")]
+            what = "the constructor hands every keyword option (format, query, tags) on to the base exporter"
+            if len(sup) != 1:
+                ctx.form(False, mod.relpath, f"{cname}.__init__", what, detail=f"{len(sup)} base constructor calls")
+                continue
+            n += 1
+            if any(k.arg is None and norm(k.value) == kw for k in sup[0].keywords):
+                ctx.holds(mod.relpath, f"{cname}.__init__", what, detail=norm(sup[0]))
+            elif any(k.arg is None for k in sup[0].keywords):
+                ctx.form(False, mod.relpath, f"{cname}.__init__", what, detail=norm(sup[0]))
+            else:
+                ctx.violated(mod.relpath, f"{cname}.__init__", what, detail=norm(sup[0]), expected=f"super().__init__(..., **{kw})")
+    ctx.floor("exporter constructors with keyword options", n, 5)
+
+
 def r5_naming_selection(ctx):
+    _missing_is_none(ctx)
+    _options_forwarded(ctx)
     sites = [("export_c.py", "ExportConfigC.parse_define"), ("export_c.py", "ExportConfigC.parse_const"), ("export_cpp.py", "ExportConfigCPP.parse_constexpr"),
              ("export_rust.py", "ExportConfigRust.parse"), ("export_fortran.py", "ExportConfigFortran.parse"), ("export_bash.py", "ExportConfigBash.parse")]
     for f, q in sites:
         fn = ctx.fn(CF + f, q)
         calls = [c for c in ast.walk(fn) if isinstance(c, ast.Call) and norm(c.func) == "self._rename" and len(c.args) == 1]
+        if not calls:
+            # the loop over the parameters may live in a helper of the same class (a generator of lines): the mapping is looked for there
+            cls_ = ctx.repo.cls(CF + f, q.split(".")[0])
+            for c in ast.walk(fn):
+                if isinstance(c, ast.Call) and isinstance(c.func, ast.Attribute) and norm(c.func.value) == "self" and c.func.attr in methods(cls_) and c.func.attr != fn.name:
+                    helper = methods(cls_)[c.func.attr]
+                    inner = [x for x in ast.walk(helper) if isinstance(x, ast.Call) and norm(x.func) == "self._rename" and len(x.args) == 1]
+                    if inner:
+                        fn, calls = helper, inner
+                        break
         nested = [norm(c) for c in calls if any(isinstance(x, ast.Call) and norm(x.func) == "self._rename" for x in ast.walk(c.args[0]))]
         ren = [norm(a) for a in ast.walk(fn) if isinstance(a, ast.Assign) and "self._rename(" in norm(a.value)]
         # a name handed on to another method of the exporter may be mapped there
@@ -517,7 +597,7 @@ def r5_naming_selection(ctx):
             ctx.violated(CF + f, q, "the parameter name is mapped exactly once before it is emitted", detail=nested, expected="one application of _rename")
         elif len(calls) == 1:
             ctx.holds(CF + f, q, "the parameter name is mapped exactly once before it is emitted", detail=ren or [norm(calls[0])])
-        elif not calls and not delegated:
+        elif not calls and not delegated and any(isinstance(l, (ast.For, ast.comprehension)) and "self.data" in norm(l.iter) for l in ast.walk(fn)):
             ctx.violated(CF + f, q, "the parameter name is mapped exactly once before it is emitted", detail="the name is emitted without _rename",
                          expected="name = self._rename(name)")
         else:
